@@ -604,6 +604,14 @@ func (r *Runner) StepCore(ev *Event) *Rec {
 		d, info := n.ExportImport(ev.C)
 		r.diff = d
 		return r.emit(ev, &abci.ExecTxResult{}, info)
+	case "RegisterRelayer":
+		// governance registers relayers for chain name ev.X on ev.C (the name need not have a client)
+		c := n.Chains[ev.C]
+		ctx := c.GetContext()
+		c.App.TIBCKeeper.ClientKeeper.RegisterRelayers(ctx, n.R(ev.X), []string{c.SenderAccounts[0].SenderAccount.GetAddress().String(), c.SenderAccounts[5].SenderAccount.GetAddress().String()})
+		n.Coord.CommitBlock(c)
+		n.dirty[ev.C] = true
+		return r.emit(ev, &abci.ExecTxResult{}, nil)
 	case "AdvanceTo":
 		n.AdvanceTo(ev.C, uint64(ev.Amt))
 		return r.emit(ev, &abci.ExecTxResult{}, nil)
